@@ -126,6 +126,11 @@ func newPackage(program *loader.Program, pkgInfo *loader.PackageInfo, plugins []
 
 		changed := false
 		calls := append(fileInfo.undefined, fileInfo.derived...)
+		// in order of appearance in the file, whether or not the previous derived.gen.go already defined the function,
+		// otherwise the order of the generated functions depends on the previously generated file.
+		sort.SliceStable(calls, func(i, j int) bool {
+			return calls[i].Expr.Pos() < calls[j].Expr.Pos()
+		})
 		for _, call := range calls {
 			// log.Printf("call: %v", call.Name)
 			if call.HasUndefined() {
